@@ -601,12 +601,21 @@ class Engine:
                     return VTuple([VInt(n.n)])
                 if attr == 'dtype':
                     return VStr('dtype:' + n.elem)
+        if base.kind == 'mod' and base.name in ('np', 'numpy') and attr == 'inf':
+            if self.world is not None:
+                self.world.used.add('np.inf')
+            return VReal(z3.Real('np_inf'))      # an unconstrained real constant: nothing is claimed about it
         if base.kind == 'mod':
             return VFn('builtin', name=base.name + '.' + attr)
         if base.kind == 'fn' and base.fk == 'builtin' and base.name.split('.')[0] in ('np', 'numpy', 'scipy'):
             return VFn('builtin', name=base.name + '.' + attr)      # sub-module: np.random.default_rng
         if base.kind == 'exc' and attr == 'args':
             return VTuple(base.args)
+        if hasattr(base, 'sv_getattr'):
+            try:
+                return base.sv_getattr(self, st, attr)      # data attributes of an extension value
+            except EngineError:
+                pass
         return VFn('method', recv=base, name=attr)
 
     def sev_Subscript(self, e, st, bound):
